@@ -13,8 +13,11 @@ CODEC_ASSUME = [
 ]
 
 
-def S(name, quick, thorough, profile="release"):
-    return dict(name=name, args=dict(quick=quick, thorough=thorough), profile=profile)
+def S(name, quick, thorough, profile="release", oracle=True):
+    """oracle=False: the stream's required results speak about another property (e.g. round trip, C10);
+    a deviation from them is then not reported as a failing input of this property, only — if the
+    model no longer matches the code — as a broken correspondence."""
+    return dict(name=name, args=dict(quick=quick, thorough=thorough), profile=profile, oracle=oracle)
 
 
 CID_SCOPE = ("src/cid_prefix.rs, src/multihasher.rs (table order), src/utils.rs (convert_*), src/incoming_stream.rs::process_message, "
@@ -54,13 +57,13 @@ PROPS = {
         assumptions=CODEC_ASSUME + ["two build configurations of the harness: `release` (no overflow checks) and `checked` (release + overflow-checks + debug-assertions); every codec case runs in a watchdog child process with an address-space limit"],
         overrun_failures_in_scope=True,
         streams=[
-            S("frame", ["--cases", 2500], ["--cases", 400000]),
-            S("frame", ["--cases", 2500], ["--cases", 400000], profile="checked"),
-            S("shortframes", ["--maxlen", 3], ["--maxlen", 4]),
-            S("shortframes", ["--maxlen", 3], ["--maxlen", 4], profile="checked"),
-            S("prefix", ["--cases", 300, "--maxlen", 3], ["--cases", 50000, "--maxlen", 5]),
-            S("prefix", ["--cases", 300, "--maxlen", 3], ["--cases", 50000, "--maxlen", 5], profile="checked"),
-            S("procmsg", ["--cases", 200], ["--cases", 20000], profile="checked"),
+            S("frame", ["--cases", 2500], ["--cases", 400000], oracle=False),
+            S("frame", ["--cases", 2500], ["--cases", 400000], profile="checked", oracle=False),
+            S("shortframes", ["--maxlen", 3], ["--maxlen", 4], oracle=False),
+            S("shortframes", ["--maxlen", 3], ["--maxlen", 4], profile="checked", oracle=False),
+            S("prefix", ["--cases", 300, "--maxlen", 3], ["--cases", 50000, "--maxlen", 5], oracle=False),
+            S("prefix", ["--cases", 300, "--maxlen", 3], ["--cases", 50000, "--maxlen", 5], profile="checked", oracle=False),
+            S("procmsg", ["--cases", 200], ["--cases", 20000], profile="checked", oracle=False),
             S("node", ["--cases", 80], ["--cases", 5000, "--ops", 150], profile="checked"),
             S("nodebig", ["--cases", 8], ["--cases", 200], profile="checked"),
             S("simraw", ["--cases", 100], ["--cases", 5000]),
@@ -73,7 +76,7 @@ PROPS = {
         assumptions=CODEC_ASSUME,
         streams=[
             S("limit", ["--cases", 400], ["--cases", 30000]),
-            S("chunks", ["--cases", 150, "--cutlen", 120], ["--cases", 5000, "--cutlen", 300]),
+            S("chunks", ["--cases", 150, "--cutlen", 120], ["--cases", 5000, "--cutlen", 300], oracle=False),
             S("pack", ["--cases", 25], ["--cases", 1500]),
         ],
     ),
@@ -147,6 +150,7 @@ PROPS = {
             S("sim", ["--cases", 120], ["--cases", 8000, "--nodes", 4, "--actions", 50]),
             S("simfault", ["--cases", 150, "--conns", 3], ["--cases", 8000, "--conns", 3, "--nodes", 4, "--actions", 50]),
             S("simlate", ["--cases", 80], ["--cases", 4000, "--conns", 3]),
+            S("simproto", ["--cases", 60], ["--cases", 3000, "--nodes", 4]),
         ],
     ),
     "C15": dict(
